@@ -8,6 +8,7 @@ are not observed.
 from __future__ import annotations
 
 import ast
+import re
 
 from ..core import AnalysisError, arg_or_kw, call_name, calls_in, kwarg, last_attr, src
 
@@ -246,11 +247,48 @@ def run(ctx):
     twin = colf.args.args[1].arg
     repl10 = [n for n in ccfg10.nodes if n.kind == "stmt" and isinstance(n.ast, ast.Assign) and isinstance(n.ast.targets[0], ast.Subscript) and src(n.ast.targets[0].value).endswith(".child_jobs") and src(n.ast.value) == twin]
     removes10 = [n for n in ccfg10.nodes if n.kind == "stmt" and n.ast is not None and any(isinstance(c, ast.Call) and isinstance(c.func, ast.Attribute) and c.func.attr in ("remove", "pop") and src(c.func.value).endswith(".child_jobs") for c in ast.walk(n.ast))]
+    # "not in the list any more" (the parent finished and cleared its children) is the one case with nothing to fill
+    absent10 = []
+    for t10 in ccfg10.nodes:
+        if t10.kind == "test" and isinstance(t10.ast, ast.Compare) and len(t10.ast.ops) == 1 and isinstance(t10.ast.ops[0], ast.In) and src(t10.ast.left) == "self" and src(t10.ast.comparators[0]).endswith(".child_jobs"):
+            absent10 += ccfg10.edge_nodes(t10, "F")
     r10.check(
-        bool(repl10) and ccfg10.must_pass(ccfg10.entry, repl10) and not removes10,
+        bool(repl10) and ccfg10.must_pass(ccfg10.entry, set(repl10) | set(absent10)) and not removes10,
         f"{m.rel}:Job.collapse:child-slot",
         "Job.collapse does not, on every path, put the twin into the collapsed job's slot of parent.child_jobs (or removes an entry): the parent's call hash and child edges then "
         "count fewer children than jobs that ran under it (both job rows keep parent_id = parent)",
         m.rel,
         colf.lineno,
+    )
+    # Job.reject()/resolve() -> Job.clear() empties child_jobs of a finished parent while some of its children are still on their way to the
+    # hand-off; such an orphan can still be collapsed onto a pending twin.  Looking its slot up with list.index() then raises ValueError out of
+    # the event loop -- also when the parent's failure was caught.
+    from ..cfg import facts_at as _facts10
+
+    for c10 in calls_in(colf):
+        if isinstance(c10.func, ast.Attribute) and c10.func.attr == "index" and src(c10.func.value).endswith(".child_jobs") and c10.args and src(c10.args[0]) == "self":
+            lst = src(c10.func.value)
+            r10.check(
+                (f"self in {lst}", True) in _facts10(ccfg10, ccfg10.node_of(c10)),
+                f"{m.rel}:Job.collapse:index-of-orphan",
+                f"`{src(c10)}` is evaluated without `self in {lst}`: when the parent was rejected by a fast-failing sibling (and cleared) before this child is collapsed onto a pending twin, list.index raises "
+                "ValueError inside Scheduler.run -- for main() = [catch(P(), ValueError, recover), Q()] the run crashes although P's error was caught",
+                m.rel,
+                c10.lineno,
+            )
+    # everything the scheduler evaluates on behalf of a call (arguments, defaults, *and* task options) must be inspected when deciding whether a
+    # root wrapper is needed: an expression-valued option of the root call is otherwise evaluated with parent_job=None next to the root job
+    nr = m.func("needs_root_task")
+    scanned = " ".join(src(c.args[0]) for c in calls_in(nr) if call_name(c) == "iter_nested_value" and c.args)
+    locs10 = {src(a.targets[0]): src(a.value) for a in ast.walk(nr) if isinstance(a, ast.Assign) and isinstance(a.targets[0], ast.Name)}
+    for k10, v10 in locs10.items():
+        if re.search(rf"\b{re.escape(k10)}\b", scanned):
+            scanned += " " + v10
+    r10.check(
+        "expr._options" in scanned and "get_task_options()" in scanned,
+        f"{m.rel}:needs_root_task:scans-options",
+        "needs_root_task inspects the arguments and defaults of the root call but not its task options: scheduler.run(top.options(memory=mem())()) gets no root wrapper, the option expression is evaluated "
+        "as a second parentless job in the same execution and record_job_start raises KeyError (one execution, two root jobs)",
+        m.rel,
+        nr.lineno,
     )
